@@ -38,7 +38,7 @@ Hand(c) == Get(hand, Get(hof, c, 0), 0)
 \* OutboundBuffered = bytes accepted so far - bytes already handed to the kernel
 ObOK(c, ob) == ob = Acc(c) - Hand(c)
 
-Next ==
+Step1 ==
     /\ More
     /\ LET e == Ev IN
        CASE e.ev = "Reset" ->
@@ -103,4 +103,6 @@ Next ==
               Same(Check(~(e.outq = 0 /\ e.inq = 0 /\ e.outq2 = 0 /\ e.inq2 = 0 /\ Acc(e.c) > Hand(e.c)), "NoStrandedOutput",
                          <<e.c, Acc(e.c), Hand(e.c)>>, viols))
          [] OTHER -> Same(viols)
+
+Next == Step1 \/ FinishWith(<<fr, acc, hand, nextk, okd, hof, areq, lastw, cof, opend>>)
 =============================================================================
